@@ -263,9 +263,15 @@ def run(ctx):
     for c in q.calls(conv):
         if isinstance(c.func, ast.Attribute) and c.func.attr == "append" and c.args and isinstance(c.args[0], ast.Constant):
             cn = cfg.node_of(c)
-            for e in cfg.nodes:
-                if e.kind == "T" and cfg.dominates(e.id, cn.id) and isinstance(e.ast, ast.Call) and isinstance(e.ast.func, ast.Attribute):
+            doms = [e for e in cfg.nodes if e.kind in ("T", "F") and cfg.dominates(e.id, cn.id)]
+            for e in doms:
+                if e.kind == "T" and isinstance(e.ast, ast.Call) and isinstance(e.ast.func, ast.Attribute):
                     emitted[e.ast.func.attr] = (c.args[0].value, c)
+            if len(doms) > 1:
+                extra = [x for x in doms if not (x.kind == "T" and isinstance(x.ast, ast.Call))] or doms[1:]
+                r.fail(conv, c, "%s under extra condition %s" % (norm(c), norm(extra[0].ast)),
+                       "the option %r is emitted only under a further condition (%s%s): styles combining attributes lose it" %
+                       (c.args[0].value, "not " if extra[0].kind == "F" else "", norm(extra[0].ast)))
     try:
         ptree, _, pdig = load_dependency_module("pastel/style.py")
     except AnalysisError as e:
@@ -368,9 +374,14 @@ def run(ctx):
     else:
         r.fail(w, w.node, "decoration switch", "Output.write does not strip the markup on an undecorated output / format on a decorated one")
 
+    # ---------------------------------------------------------------- R6
+    from .c15 import control_code_rule
+
+    control_code_rule(ctx, "C11-R6", reference=1)
+
     # ---------------------------------------------------------------- R5
     r = ctx.rule("C11-R5", "PAIR", "an indentation scope restores the saved value on every exit, does not swallow "
-                 "exceptions, and every use is scoped by 'with'", reference=7)
+                 "exceptions, and every use is scoped by 'with'", reference=8)
     ind = ctx.cls("clikit.api.io.indent.Indent")
     ex = ind.methods.get("__exit__")
     ctx.require(ex is not None, "Indent.__exit__ missing")
@@ -381,6 +392,16 @@ def run(ctx):
         r.ok("Indent.__exit__ restores the saved indentation unconditionally")
     else:
         r.fail(ex, ex.node, "__exit__ restore", "Indent.__exit__ does not restore the saved indentation unconditionally (e.g. only when no exception is in flight)")
+    # one saved value per output: saved as a per-output collection, restored by the same position
+    ini0 = ind.methods["__init__"]
+    per_output_save = any(isinstance(n, ast.Assign) and any(is_self_attr(t) and "original" in t.attr for t in n.targets) and isinstance(n.value, (ast.ListComp, ast.DictComp, ast.GeneratorExp))
+                          and any(isinstance(x, ast.Attribute) and x.attr == "_indent" for x in walk_no_nested(n.value)) for n in walk_no_nested(ini0.node))
+    per_output_restore = bool(restores) and all(isinstance(n.ast.value, ast.Subscript) and is_self_attr(n.ast.value.value) for n in restores)
+    if per_output_save and per_output_restore:
+        r.ok("Indent keeps one saved indentation per output and restores each output its own")
+    else:
+        r.fail(ex if not per_output_restore else ini0, (restores[0].ast if restores and not per_output_restore else ini0.node), "per-output save/restore",
+               "Indent does not keep one saved indentation per output: after a scope over outputs with different indentations they all get the same value back")
     swallow = [ret for ret in q.returns(ex) if ret.value is not None and not (isinstance(ret.value, ast.Constant) and not ret.value.value)]
     if swallow:
         r.fail(ex, swallow[0], norm(swallow[0]), "Indent.__exit__ may return a truthy value: exceptions raised inside the scope are swallowed")
